@@ -20,6 +20,7 @@ AltsOf(kind) ==
   CASE kind = "bytes" -> {"zero", "ones", "flipfirst", "fliplast", "trunc", "extend", "empty", "donor", "random", "null", "absent"}
     [] kind = "uint"  -> {"zero", "one", "inc", "max", "null", "absent"}
     [] kind = "int"   -> {"zero", "one", "inc", "max", "null", "absent"}
+    [] kind = "bigint" -> {"zero", "one", "inc", "negate", "huge", "donor", "random", "null", "absent"}
     [] kind = "bool"  -> {"negate", "null"}
     [] kind = "map"   -> {"null", "absent", "emptymap"}
     [] kind = "array" -> {"droplast", "duplast", "emptyarr", "null", "absent", "huge"}
